@@ -141,6 +141,9 @@ def _case(draw, tier):
         # edges between two of this grid's first accesses
         "companion_after": draw(st.sampled_from([None, None, 0, 1, 2, 3])),
         "companion_rot": draw(st.integers(1, 7)),
+        # the source ships its own edge table (own order, either direction per edge): the derived face-edge table must
+        # then speak that numbering
+        "supplied_edges": draw(st.sampled_from([None, None, None, 5, 23])),
         "subset": draw(st.sampled_from([None, None, None, True])) and {"faces": draw(st.lists(st.integers(0, 200), min_size=1, max_size=12)), "derive_first": draw(st.booleans())},
     }
 
@@ -198,8 +201,13 @@ def run_case(case, ctx):
         arg = wide[::2, :-1]
     else:
         arg = conn.copy()
-    g = build.ux().Grid.from_topology(nodes[:, 0].copy(), nodes[:, 1].copy(), arg, fill_value=FILL)
-    site = "from_topology"
+    sup = None
+    if case.get("supplied_edges") is not None:
+        from .. import writers
+
+        sup = writers.numbered_edges(mesh, case["supplied_edges"])
+    g = build.ux().Grid.from_topology(nodes[:, 0].copy(), nodes[:, 1].copy(), arg, fill_value=FILL, **({"edge_node_connectivity": np.array(sup, dtype=np.int64)} if sup else {}))
+    site = "from_topology" + (":supplied-edges" if sup else "")
     sub = case.get("subset")
     if sub and len(faces) >= 2:
         # "every grid" includes grids produced by slicing: a drawn face subset of the grid (whose edges were or were
@@ -215,7 +223,8 @@ def run_case(case, ctx):
         width = conn2.shape[1]
         conn = conn2
         case = dict(case, companion_after=None, extra_width=0)
-        site = "isel-subset:" + ("edges-derived-before" if sub["derive_first"] else "pristine")
+        site = "isel-subset:" + ("edges-derived-before" if sub["derive_first"] else "pristine") + (":supplied-edges" if sup else "")
+        sup = None
     got = {}
     comp_after = case.get("companion_after")
     for pos, k in enumerate(case["access"]):
@@ -249,6 +258,10 @@ def run_case(case, ctx):
         bad("edge_set", "fill-in-edge", f"edge rows contain the fill value: {[p for p in pairs if FILL in p][:3]}")
     if len(set(pairs)) != len(pairs):
         bad("edge_set", "duplicate-edge", "an unordered node pair is listed more than once")
+    if sup is not None:
+        ctx.ev("supplied_edges_kept")
+        if pairs != [refmodel.edge_key(a, b) for a, b in sup]:
+            bad("edge_set", "supplied-table-renumbered", "edge_node_connectivity no longer lists the supplied edges in the supplied order")
     if set(pairs) != ref_edges:
         miss = sorted(ref_edges - set(pairs))[:4]
         extra = sorted(set(pairs) - ref_edges)[:4]
